@@ -39,6 +39,8 @@ class MsgGen:
         """the parameter area with its first parameter replaced by an opaque TPM2B_ENCRYPTED_PARAM"""
         t = self.L["types"][key]
         fields = list(t["fields"])
+        if not self.first_is_tpm2b(key):
+            return self.G.gen(key)      # areas without a leading TPM2B stay in the clear
         ekey = self.L["consts"]["TPM2B_ENCRYPTED_PARAM"]
         f0 = dict(fields[0])
         f0["type"] = ekey
